@@ -13,11 +13,20 @@ Vocabulary of the statements
                      integer or pointer; bit-fields are initialised by integer constants; no struct- or union-valued
                      expression (those exist for automatic objects only); a union without chosen member carries no expression.
 * `leaves init ty 0` — the initialised scalar leaves with their storage locations.
+* `InitSpec.tyOk ty` — the declared types the general parser = 6.7.9 theorem covers: no flexible array member, an array of
+                     unknown bound only as the declared type itself (as in C), every union has a named member (C11 6.7.2.1p8).
+* `r.fl.clean`     — the run of the specification on the token list lies in none of the three regions `BraceOverride`
+                     (known finding C05-brace-override-keeps-old), `AggExprOverride` (an initializer for a subobject inside a
+                     struct/union that an expression of struct/union type initialised - a genuine defect, see Findings/C05.lean),
+                     `WideRange` (a GNU range designator `[a ... b]`, a < b, that is followed by a further designator or whose
+                     initializer has elided braces - no C11 semantics, chibicc and gcc differ by design; ranges whose
+                     initializer is brace-enclosed, a string literal or one scalar expression are covered).
 -/
 import ChibiVerif.Model.Init
 import ChibiVerif.Spec.InitSpec
 import ChibiVerif.Lemmas.InitTreeLemmas
 import ChibiVerif.Lemmas.InitFuelLemmas
+import ChibiVerif.Lemmas.InitIncLemmas
 
 namespace ChibiVerif.Props.C05
 open ChibiVerif.Init
@@ -92,12 +101,45 @@ example : (parseInit exTy [.lbrace, .expr (Expr.num 1), .comma, .dot "a", .idx 1
 
 /-- **C05 (parser = 6.7.9), full statement.**  Wherever both the parser and the specification accept an initializer they build the
     same object value and stop at the same token.  Refuted inside the region `InitSpec.BraceOverride` by
-    `Findings.C05.C05_finding_brace_override` (known finding C05-brace-override-keeps-old); outside that region and outside GNU range
-    designators applied to aggregate elements with elided braces it is proved below on exhaustive small scopes and tested on every
-    generated case of every run (`drv_c05 init` prints `same=`). -/
+    `Findings.C05.C05_finding_brace_override` (known finding C05-brace-override-keeps-old) and inside `InitSpec.AggExprOverride` by
+    `Findings.C05.C05_finding_agg_expr_override`; inside `InitSpec.WideRange` (range designator followed by a further
+    designator, or with elided braces) parser and specification follow different (GNU) conventions
+    (`Findings.C05.C05_note_wide_range`).  Outside the three regions it is PROVED below for every declared type
+    without a flexible array member (`C05_parse_spec_partial`); what is missing for the full statement outside the regions is
+    exactly: declared struct types with a flexible array member (covered by the exhaustive scope `C05_parse_spec_scope_flex`
+    and by the tested tie), and type terms that no C declaration produces (an array of unknown bound as a member or element, a
+    union without named member). -/
 def C05_parse_spec_Statement : Prop :=
   ∀ (ty : Ty) (toks : List ITok) (p : Init × List ITok) (r : InitSpec.Result),
     parseInit ty toks = .ok p → InitSpec.initFull ty toks = .ok r → Init.beq p.1 r.obj = true ∧ p.2 = r.rest
+
+/-- **C05 (parser = 6.7.9), proved by induction for ALL covered types and ALL token lists.**  For every declared type `ty` without
+    flexible array member (`tyOk`: scalars, arrays, arrays of unknown bound, structs, unions, bit-fields, unnamed bit-fields,
+    anonymous members, to any depth) and every token list: if the transcription of parse.c's twelve mutually recursive functions
+    (`parseInit`, with its standard fuel) accepts it and the cursor-machine specification of 6.7.9 (`initFull`) accepts it outside
+    the three regions, then the two build the same `Initializer` tree - the same object value, the same array bound - and stop
+    at the same token.  Proof: simulation of every parser function by steps of the specification's list (`Lemmas/InitSim*.lean`,
+    induction on the recursion fuel), the counting dry run and the real run consume the same tokens
+    (`Lemmas/InitEraseLemmas.lean`), lockstep of count, parser loop and specification for arrays of unknown bound
+    (`Lemmas/InitIncLemmas.lean`). -/
+theorem C05_parse_spec_partial (ty : Ty) (toks : List ITok) (p : Init × List ITok) (r : InitSpec.Result)
+    (hty : InitSpec.tyOk ty = true) (hp : parseInit ty toks = .ok p) (hs : InitSpec.initFull ty toks = .ok r)
+    (hr : r.fl.clean = true) : p.1 = r.obj ∧ p.2 = r.rest :=
+  InitSpec.parse_spec_tyOk hty hp hs hr
+
+/-- … in the form of the full statement (tree equality as the driver prints it: `Init.beq`) -/
+theorem C05_parse_spec_partial_beq (ty : Ty) (toks : List ITok) (p : Init × List ITok) (r : InitSpec.Result)
+    (hty : InitSpec.tyOk ty = true) (hp : parseInit ty toks = .ok p) (hs : InitSpec.initFull ty toks = .ok r)
+    (hr : r.fl.clean = true) : Init.beq p.1 r.obj = true ∧ p.2 = r.rest := by
+  obtain ⟨h1, h2⟩ := C05_parse_spec_partial ty toks p r hty hp hs hr
+  rw [h1]
+  exact ⟨InitSpec.beq_refl' _, h2⟩
+
+/-- the fuel plays no role: any fuel with which the parser answers gives the specification's tree -/
+theorem C05_parse_spec_partial_fuel (f : Nat) (ty : Ty) (toks : List ITok) (p : Init × List ITok) (r : InitSpec.Result)
+    (hty : InitSpec.tyOk ty = true) (hp : initializer2 f ty toks (newInit ty true) = .ok p)
+    (hs : InitSpec.initFull ty toks = .ok r) (hr : r.fl.clean = true) : p.1 = r.obj ∧ p.2 = r.rest :=
+  InitSpec.parse_spec_tyOk hty hp hs hr
 
 /-- parser and specification agree on `toks` unless one of them rejects it or it lies in the known region -/
 def agreeOn (ty : Ty) (toks : List ITok) : Bool :=
@@ -134,13 +176,29 @@ def alphaQ : List ITok := [.rbrace, .comma, one, .idx 0, .idx 2, .eq, .lbrace, .
 def scope (alphabet : List ITok) (n : Nat) (first : ITok) : List (List ITok) :=
   (allLists alphabet n).map (fun l => ITok.lbrace :: first :: l)
 
+/-- non-vacuity of `C05_parse_spec_partial`: the nested struct `scopeS` is covered, and
+    `{ 1, .s.c[1] = 1, 1, .s = { .c = { 1 } } }`-like spellings satisfy every hypothesis; here
+    `{ 1, .s.c[1] = 1, 1 }` (designator, continuation after the designator into the enclosing struct) and an array of unknown
+    bound of structs `{ [2].q[1] = 1, 1, { 1 } }` whose bound 4 is found by both sides -/
+example : InitSpec.tyOk scopeS = true ∧
+    (parseInit scopeS [.lbrace, one, .comma, .dot "s", .dot "c", .idx 1, .eq, one, .comma, one, .rbrace]).toOption.isSome = true ∧
+    ((InitSpec.initFull scopeS [.lbrace, one, .comma, .dot "s", .dot "c", .idx 1, .eq, one, .comma, one, .rbrace]).toOption.map
+      (fun r => r.fl.clean)) = some true := by decide
+example : InitSpec.tyOk scopeQ = true ∧
+    ((parseInit scopeQ [.lbrace, .idx 2, .dot "q", .idx 1, .eq, one, .comma, one, .comma, .lbrace, one, .rbrace, .rbrace]).toOption.map
+      (fun p => p.1.children.length)) = some 4 ∧
+    ((InitSpec.initFull scopeQ [.lbrace, .idx 2, .dot "q", .idx 1, .eq, one, .comma, one, .comma, .lbrace, one, .rbrace, .rbrace]).toOption.map
+      (fun r => (r.fl.clean, r.obj.children.length))) = some (true, 4) := by decide
+
 /-- **C05 (parser = 6.7.9), exhaustive small scope 1**: every token list `{ t₁ … t₅` over `{ } , 1 .s .c [1] =` for the nested
-    struct `scopeS` (32768 lists: braces, elision, nested and out-of-order designators, continuation after a designator). -/
-theorem C05_parse_spec_partial : ∀ first ∈ alphaS, (scope alphaS 4 first).all (agreeOn scopeS) = true := by
+    struct `scopeS` (32768 lists: braces, elision, nested and out-of-order designators, continuation after a designator).
+    (Kept beside the general theorem: it needs no `tyOk`/`clean` reasoning and re-checks the definitions by evaluation.) -/
+theorem C05_parse_spec_scope_struct : ∀ first ∈ alphaS, (scope alphaS 4 first).all (agreeOn scopeS) = true := by
   decide +kernel
 
-/-- scope 2: bit-field, unnamed bit-field, union and flexible array member; `{ t₁ … t₄` over 9 tokens (6561 lists) -/
-theorem C05_parse_spec_partial_flex : ∀ first ∈ alphaF, (scope alphaF 3 first).all (agreeOn scopeF) = true := by
+/-- scope 2: bit-field, unnamed bit-field, union and FLEXIBLE array member (not covered by `C05_parse_spec_partial`);
+    `{ t₁ … t₄` over 9 tokens (6561 lists) -/
+theorem C05_parse_spec_scope_flex : ∀ first ∈ alphaF, (scope alphaF 3 first).all (agreeOn scopeF) = true := by
   decide +kernel
 
 /-- non-vacuity: of the 512 lists `{ 1 t₂ t₃ t₄` of scope 1, 73 are accepted by both sides -/
@@ -153,11 +211,24 @@ example : agreeOn scopeF [.lbrace, one, .comma, .dot "f", .eq, .lbrace, one, .co
       (fun p => (resolveTy scopeF p.1).size)) = some 20 := by decide +kernel
 
 /-- **C05 (count), full statement.**  For an array of unknown bound the length `count_array_init_elements` gives the object is the
-    specification's: the largest indexed element with an explicit initializer, plus one (6.7.9p22). -/
+    specification's: the largest indexed element with an explicit initializer, plus one (6.7.9p22).  Proved below
+    (`C05_count_partial`) for every element type without flexible array member outside the regions `AggExprOverride` and
+    `WideRange` as well; missing for the full statement: those two regions and element types that are not C types. -/
 def C05_count_Statement : Prop :=
   ∀ (elem : Ty) (toks : List ITok) (p : Init × List ITok) (r : InitSpec.Result),
     parseInit (.inc elem) toks = .ok p → InitSpec.initFull (.inc elem) toks = .ok r → r.over = false →
       p.1.children.length = r.obj.children.length
+
+/-- **C05 (count), proved for ALL element types and ALL token lists** outside the three regions: the array the parser allocates
+    after its counting dry run (`count_array_init_elements` on a dummy tree) has exactly the length the specification's growing
+    array reaches - the largest index that receives an initializer, plus one - whatever mixture of designators, elision,
+    nested braces and excess elements the list contains.  (The heart is `InitSpec.incLoop`: count, parser loop and
+    specification in lockstep.) -/
+theorem C05_count_partial (elem : Ty) (toks : List ITok) (p : Init × List ITok) (r : InitSpec.Result)
+    (hty : InitSpec.subOk elem = true) (hp : parseInit (.inc elem) toks = .ok p)
+    (hs : InitSpec.initFull (.inc elem) toks = .ok r) (hr : r.fl.clean = true) :
+    p.1.children.length = r.obj.children.length := by
+  rw [(C05_parse_spec_partial (.inc elem) toks p r hty hp hs hr).1]
 
 /-- what `agreeOn` gives for the bound -/
 def sameBound (ty : Ty) (toks : List ITok) : Bool :=
@@ -165,16 +236,22 @@ def sameBound (ty : Ty) (toks : List ITok) : Bool :=
   | .ok (p, _), .ok r => r.over || p.children.length == r.obj.children.length
   | _, _ => true
 
-/-- **C05 (count), exhaustive small scope**: `int x[] = { t₁ … t₅` over `} , 1 [1] [3] [1 ... 2] = {` (32768 lists) and
-    `struct { int p; int q[2]; } x[] = { t₁ … t₄` over `} , 1 [0] [2] = { .q` (4096 lists): same tree, hence same bound. -/
-theorem C05_count_partial :
+/-- **C05 (count), exhaustive small scope**: `int x[] = { t₁ … t₅` over `} , 1 [1] [3] [1 ... 2] = {` (32768 lists, including the
+    GNU range `[1 ... 2]` in every position) and `struct { int p; int q[2]; } x[] = { t₁ … t₄` over
+    `} , 1 [0] [2] = { .q` (4096 lists): same tree, hence same bound.  (Also inside `WideRange`, e.g. `[1 ... 2] [3] = 1`.) -/
+theorem C05_count_scope :
     (∀ first ∈ alphaI, (scope alphaI 4 first).all (fun l => agreeOn scopeI l && sameBound scopeI l) = true) ∧
     (∀ first ∈ alphaQ, (scope alphaQ 3 first).all (fun l => agreeOn scopeQ l && sameBound scopeQ l) = true) := by
   decide +kernel
 
-/-- non-vacuity: `int x[] = { 1, [3] = 1, 1 }` has 5 elements on both sides; `int x[] = { [1 ... 2] = 1 }` has 3 -/
+/-- non-vacuity: `int x[] = { 1, [3] = 1, 1 }` has 5 elements on both sides (and satisfies the hypotheses of `C05_count_partial`);
+    `int x[] = { [1 ... 2] = 1 }` has 3 -/
 example : ((parseInit scopeI [.lbrace, one, .comma, .idx 3, .eq, one, .comma, one, .rbrace]).toOption.map (·.1.children.length)) = some 5 ∧
-    ((InitSpec.init scopeI [.lbrace, one, .comma, .idx 3, .eq, one, .comma, one, .rbrace]).toOption.map (·.1.children.length)) = some 5 ∧
-    ((parseInit scopeI [.lbrace, .range 1 2, .eq, one, .rbrace]).toOption.map (·.1.children.length)) = some 3 := by decide +kernel
+    ((InitSpec.initFull scopeI [.lbrace, one, .comma, .idx 3, .eq, one, .comma, one, .rbrace]).toOption.map
+      (fun r => (r.fl.clean, r.obj.children.length))) = some (true, 5) ∧
+    InitSpec.subOk tInt = true ∧
+    ((parseInit scopeI [.lbrace, .range 1 2, .eq, one, .rbrace]).toOption.map (·.1.children.length)) = some 3 ∧
+    ((InitSpec.initFull scopeI [.lbrace, .range 1 2, .eq, one, .rbrace]).toOption.map
+      (fun r => (r.fl.clean, r.obj.children.length))) = some (true, 3) := by decide +kernel
 
 end ChibiVerif.Props.C05
